@@ -66,6 +66,12 @@ CLAIMED.update({
              'queries rendered in JS syntax (rows, error class/record/field, pulled records, writer calls, warnings), with the caller arrays snapshotted before/after and output rows checked not to alias input rows.',
         note='Partial by nature: the JS engine itself is not modelled; it is tied to a proved reference (translation-validation-like). Strings restricted to BMP; only expressions that mean the same in both languages.',
         ref='DESIGN.md section 7, C19'),
+    'C06': dict(
+        text='C06_sqlite_statement_shape (for EVERY table name: either nothing is executed or exactly SELECT * FROM <[A-Za-z0-9_]*[LF]?>;), C06_cleanup_has_no_linefeed + C06_query_text_ident_clean (an identifier cut from query text that passes the whitelist is purely '
+             '[A-Za-z0-9_]*), C06_outputs_fresh / C06_no_source_mutation over the classified allocation and mutation points. The observation is the property: deep id()+content snapshots of input/join lists around every query kind (incl. failing), '
+             'rbql-js array snapshots and identity, DataFrame.equals+dtypes, sha256 of sqlite and CSV files, 40 hostile identifiers traced at the sqlite connection.',
+        note='Partial: object identity / allocation behaviour of Python and JS primitives, pandas, sqlite3 and the OS open mode are modelled (classification tables), not verified; the snapshots tie them.',
+        ref='DESIGN.md section 7, C06'),
     'C07': dict(
         text='C07_header_width (+ DISTINCT COUNT, EXCEPT variants): whenever a header is produced it has as many names as every record has fields, for every list of column infos; C07_names (alias / source column / identifier / colK by output position), '
              'no header without alias, star+alias without header rejected. The real engine is tied by select lists generated from item kinds (nested brackets, commas in calls and literals, AS/as) x header x join x DISTINCT/COUNT/TOP/GROUP BY/EXCEPT, '
